@@ -49,6 +49,16 @@
 
 using namespace verif;
 
+// Type-level facts about the wrappers (result types, wrapped distribution types, constexpr min/max of
+// the engines) are part of "transparent": they are checked where they are used, but as run-time
+// violations rather than static assertions, so that a tree in which one of them is false is reported
+// as a VIOLATION of the property and not as a harness that does not compile.
+#define C20_TYPE_FACT(cond, text)                                                                  \
+  do                                                                                               \
+  {                                                                                                \
+    if constexpr (!(cond)) fail("random|type-level-fact|" text, "does not hold: " text);           \
+  } while (false)
+
 namespace
 {
 namespace fr = fcppt::random;
@@ -160,14 +170,14 @@ void diff_draws(
   using dist_t = fr::distribution::basic<Param>;
   using R = typename dist_t::result_type;
   using B = base_of<R>;
-  static_assert(std::is_same_v<B, typename SD::result_type>);
-  static_assert(std::is_same_v<typename dist_t::wrapped_distribution, SD>);
-  static_assert(std::is_same_v<typename dist_t::param_type, Param>);
-  static_assert(std::is_same_v<R, typename Param::result_type>);
+  C20_TYPE_FACT((std::is_same_v<B, typename SD::result_type>), "std::is_same_v<B, typename SD::result_type>");
+  C20_TYPE_FACT((std::is_same_v<typename dist_t::wrapped_distribution, SD>), "std::is_same_v<typename dist_t::wrapped_distribution, SD>");
+  C20_TYPE_FACT((std::is_same_v<typename dist_t::param_type, Param>), "std::is_same_v<typename dist_t::param_type, Param>");
+  C20_TYPE_FACT((std::is_same_v<R, typename Param::result_type>), "std::is_same_v<R, typename Param::result_type>");
   using FE = typename E::f;
   using SE = typename E::s;
   using variate_t = fr::variate<FE, dist_t>;
-  static_assert(std::is_same_v<typename variate_t::result_type, R>);
+  C20_TYPE_FACT((std::is_same_v<typename variate_t::result_type, R>), "std::is_same_v<typename variate_t::result_type, R>");
 
   FE fg(fseed<E>(seed));
   SE sg(sengine<E>(seed));
@@ -279,7 +289,7 @@ void uint_case(i64 abits, i64 bbits, u64 seed, Plan pl)
     return;
   }
   using Param = fp::uniform_int<R>;
-  static_assert(std::is_same_v<typename Param::distribution, std::uniform_int_distribution<B>>);
+  C20_TYPE_FACT((std::is_same_v<typename Param::distribution, std::uniform_int_distribution<B>>), "std::is_same_v<typename Param::distribution, std::uniform_int_distribution<B>>");
   using dist_t = fr::distribution::basic<Param>;
   typename Param::min const mn(wrap<R>(a));
   typename Param::max const mx(wrap<R>(b));
@@ -416,7 +426,7 @@ void enum_case(u64 seed, Plan pl)
 {
   using U = std::underlying_type_t<En>;
   using Param = fp::uniform_int<En>;
-  static_assert(std::is_same_v<typename Param::distribution, std::uniform_int_distribution<U>>);
+  C20_TYPE_FACT((std::is_same_v<typename Param::distribution, std::uniform_int_distribution<U>>), "std::is_same_v<typename Param::distribution, std::uniform_int_distribution<U>>");
   using dist_t = fr::distribution::basic<Param>;
   // Documented: "draws enum values from 0 to the maximum enum value".
   U const lo = 0, hi = static_cast<U>(enum_sizes[EI] - 1);
@@ -473,13 +483,13 @@ void container_case(std::size_t n, u64 seed, int draws)
   // --- make_uniform_indices / _advanced
   auto const ip = (seed & 2U) ? fp::make_uniform_indices(cref) : fp::make_uniform_indices_advanced<fp::uniform_int_wrapper>(cref);
   using IParam = fp::uniform_int<size_type, fp::uniform_int_wrapper>;
-  static_assert(std::is_same_v<std::remove_cv_t<decltype(ip)>, fcppt::optional::object<IParam>>);
+  C20_TYPE_FACT((std::is_same_v<std::remove_cv_t<decltype(ip)>, fcppt::optional::object<IParam>>), "std::is_same_v<std::remove_cv_t<decltype(ip)>, fcppt::optional::object<IParam>>");
   // --- make_uniform_container / _advanced
   auto uc = (seed & 4U) ? fr::wrapper::make_uniform_container(fcppt::reference<CC>(cref))
                         : fr::wrapper::make_uniform_container_advanced<fp::uniform_int_wrapper, CC>(fcppt::reference<CC>(cref));
   using UC = fr::wrapper::uniform_container<CC, fp::uniform_int_wrapper>;
-  static_assert(std::is_same_v<decltype(uc), fcppt::optional::object<UC>>);
-  static_assert(std::is_same_v<typename UC::param_type, IParam>);
+  C20_TYPE_FACT((std::is_same_v<decltype(uc), fcppt::optional::object<UC>>), "std::is_same_v<decltype(uc), fcppt::optional::object<UC>>");
+  C20_TYPE_FACT((std::is_same_v<typename UC::param_type, IParam>), "std::is_same_v<typename UC::param_type, IParam>");
   if (n == 0)
   {
     if (ip.has_value())
@@ -514,7 +524,7 @@ void container_case(std::size_t n, u64 seed, int draws)
   diff_draws<E>("uniform_int<size_type> from make_uniform_indices", id, ip.get_unsafe(), sd, p2, sp2, seed, Plan{draws, static_cast<int>((seed >> 3) % n_routes), true, ends, true}, size_type{0}, hi);
 
   // the container wrapper: operator()(Generator&) returns a reference into the container
-  static_assert(std::is_same_v<typename UC::result_type, std::conditional_t<Const, typename C::const_reference, typename C::reference>>);
+  C20_TYPE_FACT((std::is_same_v<typename UC::result_type, std::conditional_t<Const, typename C::const_reference, typename C::reference>>), "std::is_same_v<typename UC::result_type, std::conditional_t<Const, typename C::const_reference, typename C::reference>>");
   typename E::f fg(fseed<E>(seed));
   typename E::s sg(sengine<E>(seed));
   std::uniform_int_distribution<size_type> sd2(0, hi);
@@ -615,7 +625,7 @@ void real_case(Choices &c, u64 seed, int route)
   B const mn2 = decode_real<B>(c, false);
   B const sup2 = std::nextafter(static_cast<B>(mn2 + decode_real<B>(c, true)), std::numeric_limits<B>::infinity());
   using Param = fp::uniform_real<R>;
-  static_assert(std::is_same_v<typename Param::distribution, std::uniform_real_distribution<B>>);
+  C20_TYPE_FACT((std::is_same_v<typename Param::distribution, std::uniform_real_distribution<B>>), "std::is_same_v<typename Param::distribution, std::uniform_real_distribution<B>>");
   using dist_t = fr::distribution::basic<Param>;
   typename Param::min const pmn(wrap<R>(mn));
   typename Param::sup const psup(wrap<R>(sup));
@@ -639,7 +649,7 @@ void normal_case(Choices &c, u64 seed, int route)
   B const mean = decode_real<B>(c, false), sdev = decode_real<B>(c, true);
   B const mean2 = decode_real<B>(c, false), sdev2 = decode_real<B>(c, true);
   using Param = fp::normal<R>;
-  static_assert(std::is_same_v<typename Param::distribution, std::normal_distribution<B>>);
+  C20_TYPE_FACT((std::is_same_v<typename Param::distribution, std::normal_distribution<B>>), "std::is_same_v<typename Param::distribution, std::normal_distribution<B>>");
   using dist_t = fr::distribution::basic<Param>;
   typename Param::mean const pm(wrap<R>(mean));
   typename Param::stddev const ps(wrap<R>(sdev));
@@ -798,8 +808,8 @@ void generator_case(Choices &c)
 {
   using FE = typename E::f;
   using SE = typename E::s;
-  static_assert(std::is_same_v<typename FE::result_type, typename SE::result_type>);
-  static_assert(FE::min() == SE::min() && FE::max() == SE::max());
+  C20_TYPE_FACT((std::is_same_v<typename FE::result_type, typename SE::result_type>), "std::is_same_v<typename FE::result_type, typename SE::result_type>");
+  C20_TYPE_FACT((FE::min() == SE::min() && FE::max() == SE::max()), "FE::min() == SE::min() && FE::max() == SE::max()");
   bool const use_seq = c.flag();
   u64 const seed = decode_seed(c);
   c.skip_to_frame();
@@ -851,10 +861,10 @@ void iso_one(Ints const &v)
   i64 const x = v.at(0);
   count(x != 0);
   namespace fd = fr::distribution;
-  static_assert(std::is_same_v<fd::base_type<st_short_nested>, short>);
-  static_assert(std::is_same_v<fd::base_type<en4>, unsigned long>);
-  static_assert(std::is_same_v<fd::base_type<long>, long>);
-  static_assert(std::is_same_v<fd::base_type<st_double>, double>);
+  C20_TYPE_FACT((std::is_same_v<fd::base_type<st_short_nested>, short>), "std::is_same_v<fd::base_type<st_short_nested>, short>");
+  C20_TYPE_FACT((std::is_same_v<fd::base_type<en4>, unsigned long>), "std::is_same_v<fd::base_type<en4>, unsigned long>");
+  C20_TYPE_FACT((std::is_same_v<fd::base_type<long>, long>), "std::is_same_v<fd::base_type<long>, long>");
+  C20_TYPE_FACT((std::is_same_v<fd::base_type<st_double>, double>), "std::is_same_v<fd::base_type<st_double>, double>");
   bool ok = fd::base_value(st_int(static_cast<int>(x))) == static_cast<int>(x) && fd::decorated_value<st_int>(static_cast<int>(x)).get() == static_cast<int>(x) &&
             fd::base_value(static_cast<long>(x)) == static_cast<long>(x) && fd::decorated_value<long>(static_cast<long>(x)) == static_cast<long>(x) &&
             fd::base_value(st_short_nested(st_short_inner(static_cast<short>(x)))) == static_cast<short>(x) &&
